@@ -8,7 +8,7 @@ FUNCTIONS = ['emd.spectra.hilberthuang (dense and sparse)', 'emd.spectra.hilbert
              'emd.support.ensure_2d / ensure_equal_dims']
 BOUNDS = {
     'quick': 'frequency and amplitude arrays [T x M] <= 2x2 of unbounded symbolic reals (negative, out-of-range and exactly-on-edge '
-             'values are covered by the solver), bin sets from the real define_hist_bins: linear with 1..3 bins and log with 2 bins, '
+             'values are covered by the solver), bin sets from the real define_hist_bins: linear with 1..3 bins and log with 2 bins, plus linear bins of inexact width (12 bins on [0.1,5] at 1x1, 9 bins on [0,0.5] at 2x1: the double-precision edges are taken as exact rationals, so e_b != e_0 + b*w), '
              'modes {energy, amplitude}, dense and sparse output, 1-D marginal; C-ordered inputs and, at 2x2, transposed (Fortran-ordered) views for either or both arrays',
     'thorough': '[T x M] <= 3x2, linear 1..4 bins, log 2..3 bins, both modes',
 }
@@ -37,6 +37,10 @@ def configs(tier):
                     continue
                 out.append(('%dx%d-%s%d[%g,%g]-%s' % (T, M, sc, nb, lo, hi, mode),
                             {'T': T, 'M': M, 'scale': 'linear' if sc == 'lin' else 'log', 'lo': lo, 'hi': hi, 'nbins': nb, 'mode': mode}))
+    # bin widths that are not exactly representable (edges from np.linspace are then not e0 + b*w): every edge is a boundary of its own
+    for (T, M, lo, hi, nb) in ([(1, 1, 0.1, 5, 12), (2, 1, 0, 0.5, 9)] if tier == 'quick' else [(1, 1, 0.1, 5, 12), (2, 1, 0, 0.5, 9), (1, 2, 0.1, 5, 12)]):
+        out.append(('%dx%d-lin%d[%g,%g]-energy-inexact-width' % (T, M, nb, lo, hi),
+                    {'T': T, 'M': M, 'scale': 'linear', 'lo': lo, 'hi': hi, 'nbins': nb, 'mode': 'energy'}))
     # memory layout: the arrays handed in need not be C-contiguous (transposed views of [M x T] arrays, Fortran order)
     for lay in (('Ffa', 'Fa', 'Ff') if tier == 'quick' else ('Ffa', 'Fa', 'Ff')):
         for (T, M) in ([(2, 2)] if tier == 'quick' else [(2, 2), (3, 2)]):
